@@ -2,6 +2,7 @@
 mod cli;
 mod cstr;
 mod keystore;
+mod text;
 
 fn main() {
     let args = vrt::Args::parse();
@@ -9,6 +10,7 @@ fn main() {
         "cli" => cli::run(&args),
         "cstr" => cstr::run(&args),
         "keystore" => keystore::run(&args),
+        "text" => text::run(&args),
         s => vrt::die(&format!("unknown subcommand {s}")),
     }
 }
